@@ -1450,6 +1450,8 @@ REF_FCN REF_STATUS ref_import_meshb_header(const char *filename,
       printf("ignoring keyword %d\n", keyword_code);
     }
     RSS(meshb_pos(file, *version, &next_position), "pos");
+    RAS(0 == next_position || position < next_position,
+        "keyword next position does not advance");
   }
 
   fclose(file);
